@@ -91,3 +91,85 @@ async def main():
 bad = asyncio.run(main())
 VIOLATED = bool(bad); DETAIL = "%d scenario(s) fail; first: %s" % (len(bad), bad[:2])
 '''
+
+
+# ------------------------------------------------------------------ the branch that retires the tasks of a lost assignment
+# C19 "stop() always terminates": Fetcher.close() cancels the routine and waits for it. While the routine waits for the
+# per-node tasks it has just cancelled, that cancellation must reach the routine itself: a bare `await task` hands it to the
+# task awaited (asyncio propagates a cancellation to the future a task waits on), where it is swallowed or mistaken for the
+# task's own - the routine then carries on with the next assignment and close() waits for ever. The per-node tasks are
+# futures other code waits for as well (close() awaits them too): declared shared, so that every bare await of one is an
+# obligation that fails.
+@contract(FMOD + ":Fetcher._fetch_requests_routine", ["C19"], variant="tasks-of-a-lost-assignment")
+def _(c):
+    c.self_("Fetcher")
+    c.no_class_inv = True
+    c.local("assignment", Opt(Ref("Assignment")))
+    c.local("subscription", Opt(Ref("Subscription")))
+    c.local("task", BTASK)
+    c.fragment("if assignment is None or not assignment.active")
+    c.none_raises = True
+    c.shared("task")
+    c.call("asyncio.wait", returns=Tup(Set(BTASK), Set(BTASK)), havoc_all=True, raises=["CancelledError"], nargs=1, kwargs=[],
+           post=["forall(BTASK, lambda t: implies(t in a0, t.done()))"],
+           note="asyncio.wait(tasks): suspends until all of them are done; a cancellation of the waiting task is raised in it and "
+                "is not passed on to the tasks")
+    c.call("self._subscriptions.wait_for_assignment", returns=Fut(NONE), post=["fresh(result)"],
+           note="a future resolved by the next assignment")
+    c.modifies("self._pending_tasks", "self._records", "Future.state", "Future.nres", "Future.exc")
+    c.raises("cancelled-or-a-task-had-failed", "BaseException")
+    c.loop(0, header="for task in self._pending_tasks", invariants=[])
+    c.loop(1, header="for task in self._pending_tasks", invariants=[])
+    c.replay_fn = lambda model, ob=None: {"script": _REASSIGN_CLOSE_SCRIPT}
+
+
+# replay: a real Fetcher with a fetch request in flight; the application replaces the assignment and calls close() 0..8 loop
+# iterations later
+_REASSIGN_CLOSE_SCRIPT = '''
+import asyncio, logging
+logging.disable(logging.CRITICAL)
+from aiokafka.client import AIOKafkaClient
+from aiokafka.consumer.fetcher import Fetcher
+from aiokafka.consumer.subscription_state import SubscriptionState
+from aiokafka.structs import TopicPartition
+
+async def scenario(yields, change):
+    client = AIOKafkaClient(bootstrap_servers=[])
+    subs = SubscriptionState()
+    tp = TopicPartition("t", 0)
+    subs.assign_from_user({tp})
+    subs.subscription.assignment.state_value(tp).reset_to(0)
+    async def send(node, request, group=None):
+        await asyncio.sleep(3600)
+    client.send = send
+    async def ready(node, group=None): return True
+    client.ready = ready
+    client.cluster.leader_for_partition = lambda p: 0
+    async def nothing(*a, **k): return None
+    client._maybe_wait_metadata = nothing
+    fetcher = Fetcher(client, subs)
+    await asyncio.sleep(0.05)            # a fetch request is in flight
+    subs.unsubscribe()
+    if change == "assign":
+        subs.assign_from_user({TopicPartition("t", 1)})
+        subs.subscription.assignment.state_value(TopicPartition("t", 1)).reset_to(0)
+    for _ in range(yields):
+        await asyncio.sleep(0)
+    closer = asyncio.ensure_future(fetcher.close())
+    done, pend = await asyncio.wait([closer], timeout=1.0)
+    if pend:
+        closer.cancel()                  # (this rescues the hanging close(): the harness must not hang with it)
+        await asyncio.sleep(0.05)
+        return "%s, then close() %d loop iterations later: close() had not returned after 1 s" % (change, yields)
+    return None
+async def main():
+    bad = []
+    for change in ("unsubscribe", "assign"):
+        for y in range(0, 9):
+            r = await scenario(y, change)
+            if r: bad.append(r)
+    return bad
+bad = asyncio.run(main())
+VIOLATED = bool(bad)
+DETAIL = "%d of 18 schedules: %r" % (len(bad), bad[:3]) if bad else "ok"
+'''
